@@ -41,6 +41,7 @@ func init() {
 		"fmt.Sprint":         modelHavocPure,
 		"errors.Is":          modelHavocPure,
 		"errors.Join":        modelErrorsJoin,
+		"reflect.TypeOf":     modelReflectTypeOf,
 		"unicode/utf8.RuneCountInString": modelRuneCount,
 		"unicode/utf8.ValidString":       modelValidString,
 		"unicode/utf8.DecodeRuneInString": modelDecodeRune,
@@ -126,6 +127,15 @@ func modelNewError(f *Frame, st *State, cc *ssa.CallCommon, args []Val, rt types
 	v := e.havocVal(rt, "err", st)
 	e.assume("true", sNot(sEq(v.S, "iface.nil")))
 	return v
+}
+
+// reflect.TypeOf(i): "returns the reflection Type that represents the dynamic type of i. If i is a nil interface value, TypeOf
+// returns nil." Two Type values are equal exactly when they represent identical types: the result is an injective function of the
+// dynamic type tag.
+func modelReflectTypeOf(f *Frame, st *State, cc *ssa.CallCommon, args []Val, rt types.Type, pos token.Pos) Val {
+	e := f.e
+	e.sc.Decl("fun:rtype.of", "(declare-fun rtype.of (Int) Iface)\n(declare-fun rtype.tagof (Iface) Int)\n(assert (forall ((a Int)) (! (= (rtype.tagof (rtype.of a)) a) :pattern ((rtype.of a)))))\n(assert (= (rtype.of 0) iface.nil))\n(assert (forall ((a Int)) (! (=> (not (= a 0)) (not (= (rtype.of a) iface.nil))) :pattern ((rtype.of a)))))")
+	return Val{T: rt, S: fmt.Sprintf("(rtype.of (iface.tag %s))", args[0].S)}
 }
 
 // errors.Join: nil iff every argument is nil.
